@@ -77,6 +77,14 @@ CHECKS = {
    text="Generated symbol tables with one symbol per (type 0-15 x binding 0-15 x visibility 0-3) = 1024 plus undefined / common / absolute / section / nameless / 300-character / non-ASCII / huge-valued symbols, for the four machines with their own constant family (ARM, SPARC, PARISC, MIPS) and three without, as ET_REL and ET_EXEC (ET_DYN thorough): symbol list, order, positions, name, address, size, label, binding, visibility of every entry compared with the stored fields; renderings of every code that elf.h names compared with elf.h parsed independently of known-elf.awk; machine-specific codes of different machines never equal, common codes equal; sample objects of four architectures compared with readelf -sW.",
    note="Codes without a name in elf.h only have to keep their numeric value.",
    tech="exhaustive enumeration of symbol field combinations; generated inputs with ground truth; cross-machine equality matrix"),
+ "C19": dict(cat="model_checking", ref="DESIGN.md §5 C19",
+   text="Every subset of {-q -s -c -H -h} x 10 queries (0 / 1 / 3 results, 2-slot stacks, compile error, run-time error after 0 / 1 / 2 results, soft error, argument-consuming) x file lists of length 0-2 over {valid1, valid2, missing, non-ELF} (0-3 thorough) x 7 argument sets (-a, --a yielding 0 / 1 / 2 values, two multi-valued --a) with the query channel (-e, -f file, -f -, positional) rotated (all four per case thorough): 26 848 invocations quick. Exit status, stdout and stderr of the built dwgrep binary are compared with a contract computed from the library driver's results for the same query and input stack: status 2/0/1 rule, -q rule and empty stdout, -c lines, row-major order of file x argument combinations, header text, -H/-h, -a X = --a '\"X\"', channel equivalence, unopenable files reported and skipped, -s.",
+   note="One eighth of the invocations run on the ASan/UBSan build of the CLI, the rest on the plain build; under -q only 'zero iff some result' is demanded.",
+   tech="exhaustive enumeration of option x query x input configurations; contract table computed from the library driver"),
+ "C20": dict(cat="model_checking", ref="DESIGN.md §3 C20",
+   text="All 626 named constants of the vocabulary: NAME value equals the number the system headers define (parsed independently of the awk scripts), NAME \"%s\" is a word that evaluates to an equal constant and is NAME itself unless the headers alias the number. A 180-value boundary lattice (all 2^k, 2^k±1, limits; 389 thorough) x {dec, hex, oct, bin} x sign: the texts produced by \"%s\", %d %x %o %b and by the CLI's full rendering read back as literals of equal value and the same domain. All byte strings of length <= 2 (3 thorough) over a 15-byte alphabet (quote, backslash, percent, NUL, newline, tab, control, DEL, high bytes, digits, x, blank) inside sequences through the CLI's brief renderer: the printed quoted literal reads back as the same bytes and no two strings print alike.",
+   note="Brief renderings of integers are not required to read back (the property states it for strings only).",
+   tech="exhaustive enumeration of constants / boundary integers / short byte strings; print -> parse round trip on the implementation"),
 }
 NOT_YET = "check under construction in this session; not claimed until it has run to completion on the unchanged tree"
 
